@@ -83,7 +83,8 @@ def gen_cases(rng, tier):
         for _ in range(nrec):
             recs.append([unknown_value(rng, ie) if u else G.well_typed_value(rng, ie, big_ok=False, maxlen=300) for ie, u in zip(ies, layout)])
         tpl = W.message(dom, 2, W.template_body(tid, ies))
-        data = W.message(dom, tid, b"".join(W.record_bytes(ies, r) for r in recs))
+        # (some variable-length values travel in the three-octet length form although they are short)
+        data = W.message(dom, tid, b"".join(W.record_bytes(ies, r, rng, 0.15) for r in recs))
         known = [ie for ie, u in zip(ies, layout) if not u]
         tpl_k = W.message(dom, 2, W.template_body(tid, known))
         data_k = W.message(dom, tid, b"".join(W.record_bytes(known, [v for v, u in zip(r, layout) if not u]) for r in recs))
